@@ -107,7 +107,10 @@ pub fn add_query_batch(store: &AnnotationStore, op: &Sx) -> Sx {
         1 => store.resources().map(|x| l(vec![a(3), l(vec![a(1), a(x.handle().as_usize() as i64)])])).collect(),
         _ => store.datasets().map(|x| l(vec![a(4), l(vec![a(1), a(x.handle().as_usize() as i64)])])).collect(),
     };
+    let far = op.list().len() > 6 && op.nth(6).int() == 1 && op.nth(2).int() == 0;
     for t in targets {
+        // TARGET ?x OFFSET 1000 1001: an annotation selector with an offset beyond any text
+        let t = if far { l(vec![a(2), t.nth(1).clone(), l(vec![a(0), a(1000)]), l(vec![a(0), a(1001)])]) } else { t };
         v.push(l(vec![a(idtok), t, l(vec![data.clone()])]));
     }
     l(v)
@@ -116,11 +119,12 @@ pub fn add_query_batch(store: &AnnotationStore, op: &Sx) -> Sx {
 fn add_query_string(op: &Sx) -> String {
     let idtok = op.nth(1).int();
     format!(
-        "ADD ANNOTATION ?new WITH {}DATA \"{}\" \"{}\" {}; TARGET ?x; {{ SELECT {} ?x }}",
+        "ADD ANNOTATION ?new WITH {}DATA \"{}\" \"{}\" {}; TARGET ?x{}; {{ SELECT {} ?x }}",
         if idtok >= 0 { format!("ID \"{}\"; ", aid(idtok)) } else { String::new() },
         sid(op.nth(3).int()),
         kid(op.nth(4).int()),
         op.nth(5).int(),
+        if op.list().len() > 6 && op.nth(6).int() == 1 && op.nth(2).int() == 0 { " OFFSET 1000 1001" } else { "" },
         match op.nth(2).int() {
             0 => "ANNOTATION",
             1 => "RESOURCE",
@@ -130,6 +134,31 @@ fn add_query_string(op: &Sx) -> String {
 }
 
 pub fn apply14(store: &mut AnnotationStore, op: &Sx) -> i64 {
+    if op.nth(0).int() == 17 {
+        // annotate_from_file on a document whose LAST element is structurally wrong (a number where the
+        // target object belongs): the file is refused as a whole, whatever the elements before it say
+        let docs: Option<Vec<serde_json::Value>> = op.list()[1..].iter().map(builder_json).collect();
+        let mut docs = match docs {
+            Some(d) => d,
+            None => Vec::new(),
+        };
+        docs.push(serde_json::json!({"@type": "Annotation", "target": 17, "data": []}));
+        let dir = std::env::temp_dir().join(format!("verif-c14-{}", std::process::id()));
+        let _ = std::fs::create_dir_all(&dir);
+        let path = dir.join("broken.annotations.stam.json");
+        let mut r = 0;
+        if std::fs::write(&path, serde_json::Value::Array(docs).to_string()).is_ok() {
+            let p = path.to_string_lossy().to_string();
+            r = match guard(|| store.annotate_from_file(p.as_str()).map(|_| ())) {
+                None => -1,
+                Some(Err(_)) => 0,
+                Some(Ok(_)) => 1,
+            };
+        }
+        let _ = std::fs::remove_file(&path);
+        let _ = std::fs::remove_dir(&dir);
+        return r;
+    }
     if op.nth(0).int() == 16 {
         let qs = add_query_string(op);
         return match guard(|| {
@@ -227,7 +256,7 @@ pub fn generate(out: &mut Out, tier: &str, seed: u64) {
         for _ in 0..len {
             let op = if rng.chance(1, 6) {
                 // a batch of 1..4 annotations
-                let mut v = vec![a(if rng.chance(1, 2) { 12 } else { 15 })];
+                let mut v = vec![a(if rng.chance(1, 5) { 17 } else if rng.chance(1, 2) { 12 } else { 15 })];
                 for _ in 0..1 + rng.below(4) {
                     for _ in 0..30 {
                         let o = shadow.gen_op(&mut rng, &cfg);
@@ -251,6 +280,7 @@ pub fn generate(out: &mut Out, tier: &str, seed: u64) {
                         a(rng.below(4) as i64),
                         a(rng.below(4) as i64),
                         a(rng.below(3) as i64),
+                        a(rng.chance(1, 4) as i64),
                     ])
                 }
             } else if rng.chance(1, 8) {
@@ -268,6 +298,7 @@ pub fn generate(out: &mut Out, tier: &str, seed: u64) {
                 (12, _) => "batch_failed",
                 (15, 1) => "batch_from_file_ok",
                 (15, _) => "batch_from_file_failed",
+                (17, _) => "batch_from_broken_file",
                 (16, 1) => "add_query_ok",
                 (16, _) => "add_query_failed",
                 (3, 1) => "annotate_ok",
@@ -290,5 +321,5 @@ pub fn generate(out: &mut Out, tier: &str, seed: u64) {
     }
 }
 
-pub const RULE: &str = "seeded random histories of 1..12 (every 4th: 1..30) operations where one reference in four is invalid (unknown resource / annotation / dataset / key / data by id or handle, inverted and out-of-range offsets in both alignments, relative offsets beyond the parent, duplicate ids with different content, nested complex selectors, missing target, valid target with invalid data and vice versa) one operation in six is a batch (annotate_from_iter, or annotate_from_file on a STAM JSON document written for it, of 1..4 builders, the failing one at any position), one in ten an ADD query through query_mut over all annotations / resources / datasets (one new annotation per row, with one id for all rows the second row fails; often repeated so that its first row restates the annotation an earlier failed attempt left) and one in eight an add_dataset with 1..3 data items; after EVERY operation that returns an error (or panics) the complete observation vector of C01 (all items, all reverse lookups, text selections, vocabulary, id resolution) is compared with the one before the call. One evaluation = one outcome or item record.";
+pub const RULE: &str = "seeded random histories of 1..12 (every 4th: 1..30) operations where one reference in four is invalid (unknown resource / annotation / dataset / key / data by id or handle, inverted and out-of-range offsets in both alignments, relative offsets beyond the parent, duplicate ids with different content, nested complex selectors, missing target, valid target with invalid data and vice versa) one operation in six is a batch (annotate_from_iter, or annotate_from_file on a STAM JSON document written for it, of 1..4 builders, the failing one at any position), one in ten an ADD query through query_mut over all annotations / resources / datasets (one new annotation per row, with one id for all rows the second row fails; often repeated so that its first row restates the annotation an earlier failed attempt left; a quarter of those over annotations with TARGET ?x OFFSET beyond any text, refused before any data is resolved), one batch in five read from a document whose last element is structurally wrong (refused as a whole) and one in eight an add_dataset with 1..3 data items; after EVERY operation that returns an error (or panics) the complete observation vector of C01 (all items, all reverse lookups, text selections, vocabulary, id resolution) is compared with the one before the call. One evaluation = one outcome or item record.";
 pub const EXHAUSTIVE: bool = false;
